@@ -8,6 +8,10 @@
 //! count). All four sockets of a transfer are driven by random I/O programs (segmentation,
 //! pauses, small SO_RCVBUF); sozu's own socket buffers are shrunk through the verif knobs in part
 //! of the cells. The hooks' I/O counters prove which would-block / partial-write paths were taken.
+//! An H2 client connection that sozu ends (GOAWAY, reset) is a candidate like a stall: sozu's own
+//! timers and flood counters make such endings load dependent, so the connection is re-run alone
+//! and the verdict counts when it is ended the same way again.
+//! Diagnosis: `VH_C01_TMO=front,back,request` (seconds) overrides the 300 s timeouts of the cell.
 
 mod pump;
 mod wire;
@@ -739,6 +743,10 @@ struct StallCandidate {
     key: u64,
     signature: String,
     witness: Value,
+    /// not a stall but an H2 connection ended by sozu (GOAWAY, reset, close): under load such an
+    /// ending can be the product of sozu's own timers and flood counters; it counts when the
+    /// connection, re-run alone, is ended the same way
+    killed: bool,
 }
 
 struct Globals {
@@ -813,22 +821,24 @@ fn start_cell(plan: &CellPlan, rep: &mut Report) -> Option<(Worker, Vec<BackendS
             }
         }
     }
+    let tmo: Vec<u32> = std::env::var("VH_C01_TMO").ok().map(|v| v.split(',').filter_map(|x| x.parse().ok()).collect()).unwrap_or_default();
+    let (t_front, t_back, t_req) = (tmo.first().copied().unwrap_or(300), tmo.get(1).copied().unwrap_or(300), tmo.get(2).copied().unwrap_or(300));
     let opts = WorkerOpts {
         buffer_size: plan.cfg.buffer_size,
         min_buffers: plan.cfg.min_buffers,
         max_buffers: plan.cfg.max_buffers,
-        front_timeout: 300,
-        back_timeout: 300,
+        front_timeout: t_front,
+        back_timeout: t_back,
         connect_timeout: 5,
-        request_timeout: 300,
+        request_timeout: t_req,
         knobs: plan.cfg.knobs.clone(),
         ..WorkerOpts::default()
     };
     let mut w = Worker::start(opts);
     let tweak = |b: &mut sozu_command_lib::config::ListenerBuilder| {
-        b.with_front_timeout(Some(300))
-            .with_back_timeout(Some(300))
-            .with_request_timeout(Some(300))
+        b.with_front_timeout(Some(t_front))
+            .with_back_timeout(Some(t_back))
+            .with_request_timeout(Some(t_req))
             .with_connect_timeout(Some(5));
     };
     let mut ok = w.add_http_listener(http, tweak) && w.add_https_listener(https, tweak);
@@ -1073,7 +1083,7 @@ impl Judge<'_> {
             } else {
                 rep.obs("stall_candidates", 1);
                 rep.obs(&format!("stall_candidate/{}/silence={}s", sig.trim_start_matches("bodies/stalled/"), c.stall_silence_s), 1);
-                self.globals.stalls.lock().unwrap().push(StallCandidate { case: self.plan.case, conn: o.conn, key: x.key, signature: sig, witness: wit });
+                self.globals.stalls.lock().unwrap().push(StallCandidate { case: self.plan.case, conn: o.conn, key: x.key, signature: sig, witness: wit, killed: false });
             }
             return true;
         }
@@ -1094,8 +1104,14 @@ impl Judge<'_> {
             if self.killed_reported.borrow_mut().insert(o.conn) {
                 let sig = format!("bodies/h2_connection_killed/{pair}/{}/{kind}", coarse_theme(&theme));
                 let siblings: Vec<Value> = self.plan.conns.iter().find(|cp| cp.idx == o.conn).map(|cp| cp.xfers.iter().map(|x| x.json()).collect()).unwrap_or_default();
-                rep.violation(&sig, &format!("sozu ended the whole H2 client connection ({detail}) while exchanges with cleanly sending peers were under way; every stream of the connection used the framing theme '{theme}'"),
-                    witness(self.ctx, self.plan, o, json!({"theme": theme, "streams_of_connection": siblings})));
+                let wit = witness(self.ctx, self.plan, o, json!({"theme": theme, "streams_of_connection": siblings}));
+                if self.rerun {
+                    rep.violation(&sig, &format!("sozu ended the whole H2 client connection ({detail}) while exchanges with cleanly sending peers were under way (also when the connection was re-run alone); every stream of the connection used the framing theme '{theme}'"), wit);
+                } else {
+                    rep.obs("h2_connection_kill_candidates", 1);
+                    rep.obs(&format!("h2_connection_kill_candidate/{}", sig.trim_start_matches("bodies/h2_connection_killed/")), 1);
+                    self.globals.stalls.lock().unwrap().push(StallCandidate { case: self.plan.case, conn: o.conn, key: x.key, signature: sig, witness: wit, killed: true });
+                }
             } else {
                 rep.obs("collateral/stream_of_a_killed_h2_connection", 1);
             }
@@ -1111,7 +1127,10 @@ impl Judge<'_> {
         }
 
         // --- byte equality: judged whenever bytes arrived, whoever sent what afterwards
-        let early_h1_unfinished = x.mode == Mode::Early && !(o.front == Front::H2Tls && back_proto == Back::H2c) && !c.req_sent_complete;
+        // "sent" only means the kernel took the bytes: the request is unfinished as long as the
+        // backend has not seen all of it
+        let upload_arrived = o.back.as_ref().is_some_and(|b| b.req.ended && b.req.bytes == x.req_size);
+        let early_h1_unfinished = x.mode == Mode::Early && !(o.front == Front::H2Tls && back_proto == Back::H2c) && (!c.req_sent_complete || !upload_arrived);
         if let Some(m) = &c.resp.mismatch {
             if early_h1_unfinished && m.off >= x.resp_size {
                 // H1 early response on a close-delimited body: what sozu makes of the rest of the
@@ -1173,7 +1192,7 @@ impl Judge<'_> {
             } else {
                 rep.obs("stall_candidates", 1);
                 rep.obs(&format!("stall_candidate/{}/silence={}s", sig.trim_start_matches("bodies/stalled/"), c.stall_silence_s), 1);
-                self.globals.stalls.lock().unwrap().push(StallCandidate { case: self.plan.case, conn: o.conn, key: x.key, signature: sig, witness: wit });
+                self.globals.stalls.lock().unwrap().push(StallCandidate { case: self.plan.case, conn: o.conn, key: x.key, signature: sig, witness: wit, killed: false });
             }
             return true;
         }
@@ -1220,6 +1239,11 @@ impl Judge<'_> {
                             let sig = format!("bodies/malformed/{pair}/upload/{}", sig_up(x));
                             rep.violation(&sig, &format!("strict decoder at the backend rejected the forwarded request after {} body bytes: {detail}", b.req.bytes),
                                 witness(self.ctx, self.plan, o, json!({"received": b.req.bytes})));
+                        } else if !c.from_backend && c.status.is_some() && c.resp.ended {
+                            // sozu refused the exchange with an answer of its own (400 on a chunk
+                            // extension, 5xx): the request it gave up forwarding is not a body
+                            // that was silently damaged
+                            rep.obs(&format!("exempt/upload_of_an_exchange_sozu_answered_itself/{kind}"), 1);
                         } else if c.req_sent_complete {
                             judged = true;
                             violated = true;
@@ -1607,10 +1631,15 @@ fn finish_stalls(ctx: &Ctx, globals: &Globals, rep: &mut Report) {
                 }
                 let mut kept = base.fork();
                 let mut confirmed = false;
-                for s in list.iter().take(2) {
+                // the quick tier affords one re-run per signature, the thorough tier a second candidate
+                for s in list.iter().take(ctx.tier.pick(1, 2)) {
                     let mut sub = base.fork();
                     let outcomes = run_case(ctx, s.case, globals, Some(s.conn), Some(s.key), true, &mut sub);
-                    let again = outcomes.iter().any(|o| o.client.stalled && (o.xfer.key == s.key || o.client.conn_level));
+                    let again = if s.killed {
+                        sub.violations.iter().any(|v| v.signature == s.signature)
+                    } else {
+                        outcomes.iter().any(|o| o.client.stalled && (o.xfer.key == s.key || o.client.conn_level))
+                    };
                     // only verdicts of the re-run are kept, not its coverage counters
                     for v in sub.violations {
                         kept.violation(&v.signature, &v.what, v.witness);
@@ -1634,6 +1663,15 @@ fn finish_stalls(ctx: &Ctx, globals: &Globals, rep: &mut Report) {
             None => {
                 for _ in 0..n {
                     rep.inconclusive("watchdog: stalled transfer not re-run (re-run budget of this run exhausted)");
+                }
+            }
+            Some(true) if sig.starts_with("bodies/h2_connection_killed/") => {
+                rep.obs("h2_connection_kills_reproduced_in_isolation", 1);
+            }
+            Some(false) if sig.starts_with("bodies/h2_connection_killed/") => {
+                rep.obs("h2_connection_kills_not_reproduced_in_isolation", 1);
+                for _ in 0..n {
+                    rep.inconclusive(&format!("sozu ended an H2 client connection under load but not when the connection was re-run alone ({sig})"));
                 }
             }
             Some(true) => {
